@@ -13,7 +13,7 @@ fn fmt_stub2(_a: core::fmt::Arguments<'_>) -> String {
 }
 
 // @harness c01_write_data_zero_once
-// @props C01 C10 C16
+// @props C01 C10 C16 C04
 // @tier quick
 // @cost 60
 // @timeout 900
